@@ -39,6 +39,7 @@ type Case struct {
 	Frame  *FrameCase           `json:"frame,omitempty"`
 	Queue  *QueueCase           `json:"queue,omitempty"`
 	TLS    *tlsrestart.Scenario `json:"tls,omitempty"`
+	Big    *BigCase             `json:"big,omitempty"`
 }
 
 type ChanOp struct {
@@ -721,6 +722,13 @@ func TestCheck(t *testing.T) {
 		for i := 0; i < env.N(4, 3); i++ {
 			cases = append(cases, Case{Kind: "tlsrestart", TLS: genTLSRestart(r.Fork(), i)})
 		}
+		bigs := []BigCase{{Silences: 120, Entries: 10}, {Silences: 10, Entries: 300}, {Silences: 800, Entries: 800}}
+		if thorough {
+			bigs = append(bigs, BigCase{Silences: 5000, Entries: 5000}, BigCase{Silences: 2000, Entries: 0}, BigCase{Silences: 0, Entries: 3000})
+		}
+		for i := range bigs {
+			cases = append(cases, Case{Kind: "big", Big: &bigs[i]})
+		}
 		for i := 0; i < env.N(3, 3); i++ {
 			cases = append(cases, Case{Kind: "frame", Frame: genFrame(r.Fork())})
 		}
@@ -781,6 +789,8 @@ func TestCheck(t *testing.T) {
 			default:
 				tags[fmt.Sprintf("lost-while-dead-connection-was-discovered=%d", o.AfterSent-o.AfterArrived)] = 1
 			}
+		case "big":
+			viols, tags = runBig(t, c.Big)
 		case "queue":
 			var terms []string
 			terms, viols, tags = runQueue(t, c.Queue)
